@@ -7,8 +7,8 @@ EXTENDS AccRoundsFn
 CONSTANTS Mode,            \* "asis" | "repaired"
           StableUpTo,      \* the sort is stable for at most this many elements (12 in Go's sort.Slice)
           Scenarios        \* the family explored by the model check
-VARIABLES sc, phase, e, t, r, f, res, torun, tomerge, eacc, tacc, uacc, uall, tsall, round
-vars == <<sc, phase, e, t, r, f, res, torun, tomerge, eacc, tacc, uacc, uall, tsall, round>>
+VARIABLES sc, phase, e, t, r, f, res, torun, tomerge, eacc, tacc, uacc, uall, tsall, ball, round
+vars == <<sc, phase, e, t, r, f, res, torun, tomerge, eacc, tacc, uacc, uall, tsall, ball, round>>
 
 \* every arrangement of m that is sorted by sender (equal senders in any order)
 SortedArrangements(m) ==
@@ -28,7 +28,7 @@ StartRound(ee, tt, rr, ff) ==
      /\ eacc' = ee /\ tacc' = <<>> /\ uacc' = <<>>
 
 Init == /\ sc \in Scenarios
-        /\ phase = "run" /\ round = 1 /\ uall = <<>> /\ tsall = <<>>
+        /\ phase = "run" /\ round = 1 /\ uall = <<>> /\ tsall = <<>> /\ ball = {}
         /\ e = E0(sc) /\ t = <<>> /\ r = sc.reports /\ f = sc.free
         /\ res = <<>> /\ torun = RoundSet(<<>>, sc.reports, sc.free) /\ tomerge = RoundSet(<<>>, sc.reports, sc.free)
         /\ eacc = E0(sc) /\ tacc = <<>> /\ uacc = <<>>
@@ -38,7 +38,7 @@ RunSvc == \E s \in torun : \E iT \in ImplIn(t, s) :
             /\ phase = "run"
             /\ res' = res @@ (s :> Single(sc, e, s, iT, Operands(r, s)))
             /\ torun' = torun \ {s}
-            /\ UNCHANGED <<sc, phase, e, t, r, f, tomerge, eacc, tacc, uacc, uall, tsall, round>>
+            /\ UNCHANGED <<sc, phase, e, t, r, f, tomerge, eacc, tacc, uacc, uall, tsall, ball, round>>
 
 \* the merge loop takes the next service from the map
 Merge == \E s \in tomerge :
@@ -49,10 +49,11 @@ Merge == \E s \in tomerge :
            /\ eacc' = IF s \in Ids(sc) THEN [spent |-> [eacc.spent EXCEPT ![s] = res[s].spent], store |-> [eacc.store EXCEPT ![s] = res[s].store]]
                       ELSE eacc
            /\ tomerge' = tomerge \ {s}
+           /\ ball' = IF res[s].y # NoY THEN ball \cup {[id |-> s, y |-> res[s].y]} ELSE ball   \* b is a Go map used as a set
            /\ UNCHANGED <<sc, phase, e, t, r, f, res, torun, uall, tsall, round>>
 
 EndRound == /\ phase = "run" /\ torun = {} /\ tomerge = {}
-            /\ uall' = uall \o uacc /\ tsall' = Append(tsall, tacc) /\ sc' = sc
+            /\ uall' = uall \o uacc /\ tsall' = Append(tsall, tacc) /\ sc' = sc /\ ball' = ball
             /\ IF Len(tacc) = 0 \/ round >= MaxRounds
                THEN /\ phase' = "done" /\ round' = round
                     /\ e' = eacc /\ UNCHANGED <<t, r, f, res, torun, tomerge, eacc, tacc, uacc>>
@@ -70,5 +71,8 @@ InvU     == Done => uall = GP(sc).u                   \* gas list (order of serv
 InvUSet  == Done => Ran(uall) = Ran(GP(sc).u)         \* ... as a set (what the statistics use)
 InvT     == Done => tsall = GP(sc).ts                 \* transfer sequence of every round
 InvRounds == Done => Len(tsall) = Len(GP(sc).ts)
-AllOutcomesEqual == InvStore /\ InvSpent /\ InvU /\ InvT
+InvB     == Done => ball = GP(sc).b                   \* accumulation outputs (a set of pairs; the same service may occur twice)
+\* witness (expected to be VIOLATED): some behaviour has the same service twice in b
+NeverTwiceInB == Done => \A p, q \in ball : p.id = q.id => p = q
+AllOutcomesEqual == InvStore /\ InvSpent /\ InvU /\ InvT /\ InvB
 =============================================================================
